@@ -16,6 +16,7 @@ package noderesource
 //   noderes_oracle_verif_test.go (oracles written from the statement of C09)
 
 import (
+	"runtime/debug"
 	"testing"
 
 	"github.com/go-logr/logr"
@@ -27,6 +28,8 @@ import (
 func init() {
 	// the code under test logs every degradation / failed update: keep the workers quiet
 	klog.SetLogger(logr.Discard())
+	// the code under test allocates a map per resource list operation; runs are tiny, so trade memory for GC time
+	debug.SetGCPercent(800)
 }
 
 func TestVerifSim(t *testing.T) { sim.Main(t, &nrEngine{}) }
@@ -291,7 +294,7 @@ var nrFaultKinds = []string{"err-before", "err-after", "conflict", "stale-read",
 
 func (nrEngine) Generate(p *sim.Plan, g *sim.Rng) {
 	thorough := p.Tier == "thorough"
-	cfg := nrCfg{ReportSec: g.PickI64(60, 60, 120, 300), SyncSec: g.PickI64(120, 300, 300, 600), Lag: g.Bool(0.3), Seed: g.U64()}
+	cfg := nrCfg{ReportSec: g.PickI64(60, 120, 300, 300), SyncSec: g.PickI64(90, 150, 300), Lag: g.Bool(0.3), Seed: g.U64()}
 	nn := g.Range(1, 2)
 	if thorough || g.Bool(0.2) {
 		nn = g.Range(1, 3)
@@ -330,6 +333,10 @@ func (nrEngine) Generate(p *sim.Plan, g *sim.Rng) {
 		}
 	}
 
+	deg := int64(15)
+	if cfg.CM != nil && cfg.CM.Cluster.Degrade != nil {
+		deg = *cfg.CM.Cluster.Degrade
+	}
 	var ops []nrOp
 	npods := 0
 	addPod := func(n int) {
@@ -351,7 +358,9 @@ func (nrEngine) Generate(p *sim.Plan, g *sim.Rng) {
 		n := g.Intn(nn)
 		switch x := g.Intn(100); {
 		case x < 22:
-			ops = append(ops, nrOp{K: "advance", D: g.PickI64(1, 10, 30, 61, 61, 90, 180, 360, 960, 2100)})
+			// mostly around the report interval, sometimes beyond the degrade time
+			rs := cfg.ReportSec
+			ops = append(ops, nrOp{K: "advance", D: g.PickI64(1, 10, rs/2, rs+1, rs+1, rs*3/2, 3*rs, 3*rs, 6*rs, deg*60+5, 2*deg*60+30, 3*deg*60+rs)})
 		case x < 40:
 			ops = append(ops, nrOp{K: "report", N: n, S: g.U64(), Rep: nrGenReport(g)})
 		case x < 55:
